@@ -7,6 +7,7 @@ package PKG
 
 import (
 	"bufio"
+	"encoding/base64"
 	"encoding/json"
 	"fmt"
 	"os"
@@ -158,6 +159,8 @@ func vuEnvInt(name string, def int) int {
 }
 
 func vuSeed() int64 { return int64(vuEnvInt("VERIF_SEED", 1)) }
+
+func vuB64(b []byte) string { return base64.StdEncoding.EncodeToString(b) }
 
 func vuJS(v interface{}) string {
 	b, _ := json.Marshal(v)
